@@ -198,3 +198,44 @@ m('grpc-mtls-allows-all-when-reads-open', 'R13d', GRPC,
 m('grpc-readonly-table-has-write', 'R13c', GRPC,
   '	"/build.bazel.remote.execution.v2.ContentAddressableStorage/FindMissingBlobs": {},',
   '	"/build.bazel.remote.execution.v2.ContentAddressableStorage/FindMissingBlobs": {},\n	"/build.bazel.remote.execution.v2.ContentAddressableStorage/BatchUpdateBlobs": {},')
+
+# ---- R17d: status mapping ----
+m('splice-put-error-unknown', 'R17d', 'server/grpc_cas.go',
+  '''		return nil, grpc_status.Errorf(gRPCErrCode(err, codes.Unknown),
+			"Failed to splice blob %s/%d: %s",''',
+  '''		return nil, grpc_status.Errorf(codes.Unknown,
+			"Failed to splice blob %s/%d: %s",''')
+m('fetchblob-cache-error-not-translated', 'R17d', 'server/grpc_asset.go',
+  '''		if gRPCErrCode(err, translateGRPCErrCodeFromClient(err)) == codes.ResourceExhausted {''',
+  '''		if translateGRPCErrCodeFromClient(err) == codes.ResourceExhausted {''')
+m('errcode-507-internal', 'R17d', 'server/grpc.go',
+  '''		case http.StatusInsufficientStorage:
+			return codes.ResourceExhausted''',
+  '''		case http.StatusInsufficientStorage:
+			return codes.Internal''')
+m('errcode-400-dropped', 'R17d', 'server/grpc.go',
+  '''		case http.StatusBadRequest:
+			return codes.InvalidArgument
+''',
+  '''''')
+m('http-put-cache-error-as-500', 'R17d', 'server/http.go',
+  '''				msg = cerr.Text
+				http.Error(w, msg, cerr.Code)''',
+  '''				msg = cerr.Text
+				http.Error(w, msg, http.StatusInternalServerError)''')
+m('write-put-error-internal', 'R17d', 'server/grpc_bytestream.go',
+  '''		msg := fmt.Sprintf("GRPC BYTESTREAM WRITE FAILED: %s Cache Put failed: %v", resourceName, err)
+		s.accessLogger.Printf(msg)
+		code := gRPCErrCode(err, codes.Internal)''',
+  '''		msg := fmt.Sprintf("GRPC BYTESTREAM WRITE FAILED: %s Cache Put failed: %v", resourceName, err)
+		s.accessLogger.Printf(msg)
+		code := codes.Internal''')
+m('update-ac-stdout-put-error-internal', 'R17d', 'server/grpc_ac.go',
+  '''		err = s.cache.Put(ctx, cache.CAS, hash, sizeBytes,
+			bytes.NewReader(req.ActionResult.StdoutRaw))
+		if err != nil && err != io.EOF {
+			code := gRPCErrCode(err, codes.Internal)''',
+  '''		err = s.cache.Put(ctx, cache.CAS, hash, sizeBytes,
+			bytes.NewReader(req.ActionResult.StdoutRaw))
+		if err != nil && err != io.EOF {
+			code := codes.Internal''')
